@@ -55,12 +55,11 @@ fn length_fits(kind: Kind, version: u8, len: u32) -> Result<bool, ()> {
         Kind::Eod => match version {
             0 => len == 12,
             1 | 2 => len == 24,
-            _ => {
-                if len == 12 || len == 24 {
-                    return Err(());
-                }
-                false
-            }
+            // The End of Data layout is defined per protocol version; the
+            // property covers versions 0-2 and demands an error for a header
+            // announcing a wrong version, so a version-dispatching reader must
+            // refuse End of Data PDUs of any other version.
+            _ => false,
         },
         Kind::RouterKey => len >= 32,
         Kind::Aspa => len >= 12 && (len - 12) % 4 == 0,
